@@ -122,6 +122,7 @@ func (f *fixture) open() error {
 		c := resbadger.BadgerDB{DB: db}.Collection()
 		if f.cfg.Typed {
 			m = m.WithType(T{})
+			c = c.WithType([]interface{}(nil)) // the explicit form of the default element type
 		}
 		if f.cfg.Default {
 			if f.cfg.Typed {
